@@ -30,6 +30,9 @@ type Program struct {
 	// fieldGetters: "pkg.Type.Field" -> getter method name, for getters whose
 	// whole body is "return recv.Field" (derived from the SSA, not a frozen list)
 	fieldGetters map[string]string
+	purityCache  map[*ssa.Function]int
+	constSlices  map[string][]string
+	constSliceNo map[string]bool
 }
 
 func repoDir() string {
